@@ -55,6 +55,7 @@ type Fn struct {
 	Dur      []int64  `json:"dur"`
 	Callback bool     `json:"callback"`
 	Info     bool     `json:"info"`
+	Pool     *int     `json:"pool"` // use the declared function P<pool> instead of a reflect.MakeFunc value
 }
 
 type Op struct {
@@ -77,6 +78,7 @@ type Config struct {
 }
 
 type Case struct {
+	Viz    bool   `json:"viz"` // record the DOT text after every operation
 	ID     string `json:"id"`
 	Config Config `json:"config"`
 	Fns    []Fn   `json:"fns"`
@@ -135,6 +137,8 @@ type OpTrace struct {
 	Verdict Verdict `json:"verdict"`
 	Events  []Event `json:"events"`
 	Info    *Info   `json:"info,omitempty"`
+	Dot     string  `json:"dot,omitempty"`
+	DotErr  string  `json:"dot_err,omitempty"`
 	VizOK   bool    `json:"viz_ok"` // Visualize after this op did not panic
 	StrOK   bool    `json:"str_ok"` // String() after this op did not panic
 }
@@ -166,7 +170,12 @@ var (
 	errType = reflect.TypeOf((*error)(nil)).Elem()
 )
 
-func nameStr(n int) string  { return fmt.Sprintf("n%d", n) }
+func nameStr(n int) string {
+	if n == 3 {
+		return "n<3>&" // a legal name that needs escaping in HTML-like DOT labels
+	}
+	return fmt.Sprintf("n%d", n)
+}
 func groupStr(g int) string { return fmt.Sprintf("g%d", g) }
 
 func paramType(p Param) reflect.Type {
@@ -244,6 +253,9 @@ func resultType(r Result, decorator bool) reflect.Type {
 // ---------- reading arguments ----------
 
 func atomOf(v reflect.Value) *Atom {
+	if v.Kind() == reflect.Chan {
+		return nil // channel-typed parameters are only ever optional and absent
+	}
 	if v.Kind() == reflect.Interface {
 		if v.IsNil() {
 			return nil
@@ -347,6 +359,7 @@ type runner struct {
 	advance func(time.Duration)
 	scopes  []*dig.Scope
 	cont    *dig.Container
+	poolFn  map[int]*Fn
 }
 
 func (r *runner) planAt(f *Fn, e int) string {
@@ -373,6 +386,14 @@ func (r *runner) makeFunc(f *Fn, role string) reflect.Value {
 	}
 	ft := reflect.FuncOf(in, out, f.Variadic)
 	return reflect.MakeFunc(ft, func(args []reflect.Value) []reflect.Value {
+		return r.body(f, role, args)
+	})
+}
+
+// body is what every user function does when dig calls it.
+func (r *runner) body(f *Fn, role string, args []reflect.Value) []reflect.Value {
+	dec := role == "dec"
+	{
 		e := r.execs[f.ID]
 		r.execs[f.ID] = e + 1
 		var logged []Arg
@@ -407,7 +428,27 @@ func (r *runner) makeFunc(f *Fn, role string) reflect.Value {
 			}
 		}
 		return res
-	})
+	}
+}
+
+// ---------- declared functions (pool_gen.go) ----------
+
+var curRunner *runner
+
+func poolCall(i int, args []reflect.Value) []reflect.Value {
+	r := curRunner
+	f := r.poolFn[i]
+	if f == nil {
+		panic(fmt.Sprintf("harness: pool function %d is not part of the running case", i))
+	}
+	return r.body(f, "ctor", args)
+}
+
+func toErr(v reflect.Value) error {
+	if v.IsNil() {
+		return nil
+	}
+	return v.Interface().(error)
 }
 
 func classify(err error) *Root {
